@@ -83,12 +83,14 @@ impl Creator {
 }
 
 // tokio::fs::OpenOptions as configured by the `setup` closure of File::from_file
-pub struct OpenMode { pub create: bool, pub append: bool }
+// (`truncate`: an existing file is cut to length 0 when it is opened)
+pub struct OpenMode { pub create: bool, pub append: bool, pub truncate: bool }
 // setup(&mut OpenOptions::new()).open(path) + try_into_std(): the descriptor has the configured mode;
 // metadata().len() is the current length of the file
 #[verifier::external_body]
 pub fn os_open(mode: OpenMode) -> (r: Result<OsFile, VErr>)
     ensures r.is_ok() ==> r->Ok_0.append_mode() == mode.append && r->Ok_0.durable_len() == r->Ok_0.content().len()
+        && (mode.truncate ==> r->Ok_0.content().len() == 0)
 { unimplemented!() }
 #[verifier::external_body]
 pub fn os_len(f: &OsFile) -> (r: Result<u64, VErr>) ensures r.is_ok() ==> r->Ok_0 == f.content().len() { unimplemented!() }
